@@ -173,7 +173,9 @@ HARNESS = r'''
     fn parent_and_sibling_spec() {
         let i: usize = kani::any();
         let n: usize = kani::any();
-        kani::assume(i < n && n <= MAXN && i != spec_root(n));
+        // n is the NODE count of a tree with L >= 1 leaves, i.e. 2L-1: odd.  (For an even n the last branch node has an empty right subtree and no sibling exists;
+        // the first version of this harness forgot this type invariant and, once it ran to completion, reported node 255 of a "tree" of 256 nodes.)
+        kani::assume(i < n && n <= MAXN && n % 2 == 1 && i != spec_root(n));
         let (p, s) = complete_parent_and_sibling(i, n);
         assert!(p == spec_parent(i, n));
         assert!(s != i && s < n && s != spec_root(n));
